@@ -14,12 +14,14 @@ func init() {
 		id: "C15",
 		explanation: "Static clauses of 'workflow field mappings move exactly the mapped values; overlaps are rejected': " +
 			"(insert-only) the mapped-path trie of a workflow node never overwrites an existing entry: every map write in checkAndAddMappedPath is on the miss arm of a lookup of the same key (so a path and its prefix conflict in either order); " +
+			"(overlap-checked) every way of declaring an input — direct edge, indirect (no control dependency) edge, static value — runs its target paths through that trie first and stops on its error; " +
+			"(stream-key-tolerance) the streaming mapper skips a mapping whose map key is missing in the current chunk iff its flag is set, at every position of the source path, and only the stream mapper sets the flag; " +
 			"(records-accumulate) the per-node mapping records used by compile's duplicate-target check accumulate over all predecessors; " +
 			"(duplicate-gate) compile's duplicate-target check blocks success; " +
 			"(reflect-zero) in field_mapping.go no possibly-nil reflect.Type / zero reflect.Value is used unguarded (run-time type problems are errors, not panics); " +
 			"(checker-capture) handlers created per mapping do not capture loop-shared variables; (declared-type) takeOne reports the value and the DECLARED type of the very field/map element it extracted; " +
 			"(runtime-checker-installed) a checker returned by validateFieldMapping is installed on the same edge; mapping handlers have both value and stream forms.",
-		decided:    []string{"insert-only", "records-accumulate", "duplicate-gate", "reflect-zero", "checker-capture", "declared-type", "runtime-checker-installed"},
+		decided:    []string{"insert-only", "overlap-checked", "stream-key-tolerance", "records-accumulate", "duplicate-gate", "reflect-zero", "checker-capture", "declared-type", "runtime-checker-installed"},
 		notDecided: []string{"that extraction/assignment computes the right value for every type shape", "that predecessor outputs are never mutated through reflect", "nil *struct intermediates on a source path (listed as observation)"},
 		run:        runC15,
 	})
